@@ -1,0 +1,12 @@
+//go:build verif
+
+package apricot
+
+import "github.com/AliceO2Group/Control/configuration"
+
+// SetInstanceForVerif installs svc as the process-wide configuration service returned by
+// Instance(), as the first call of Instance() would.
+func SetInstanceForVerif(svc configuration.Service) {
+	once.Do(func() {})
+	instance = svc
+}
